@@ -403,7 +403,7 @@ where
     let probe = Probe::new(state, c.kt_start == 0.);
     let model = probe.model.clone();
     {
-        model.lock().unwrap().use_expectations = false;
+        model.lock().unwrap().mode = crate::probe::Mode::Agnostic;
     }
     let mut b = BuildOptimiser::default();
     b.steps(c.steps).inner_steps(c.inner).kt_start(c.kt_start).kt_ratio(Some(c.kt_ratio.unwrap_or(0.1))).max_step_size(c.max_step).seed(c.seed).convergence(None);
